@@ -106,5 +106,11 @@ def install():
             r = simple_percent(self, other)
             if r is not None:
                 return r
-        return orig(self, other)
+        if not isinstance(self, str):
+            raise TypeError
+        # original behaviour: realise, then format natively
+        conc_self = core.deep_realize(self)
+        conc_other = core.deep_realize(other)
+        with NoTracing():
+            return conc_self % conc_other
     core._PATCH_REGISTRATIONS[str.__mod__] = _str_percent_format
